@@ -318,7 +318,7 @@ def arc_cubics(seg):
     return out
 
 
-def engine_direct_contains(leaf, p_root, tolerance=0.1):
+def engine_direct_contains(leaf, p_root, tolerance=0.1, simplify=True):
     """Stroke the leaf's own geometry by calling skia-pathops directly from the harness with
     the parameters SVG prescribes, and report whether the result covers p_root.
     Used only to attribute a deviation from the ideal stroke to the engine."""
@@ -348,10 +348,11 @@ def engine_direct_contains(leaf, p_root, tolerance=0.1):
             path.close()
     path.stroke(P["width"], caps[P["cap"]], joins[P["join"]], P["miterlimit"], list(P["dashes"]), P["offset"])
     path.convertConicsToQuads(tolerance)
-    try:
-        path.simplify(fix_winding=True)
-    except Exception:
-        pass
+    if simplify:
+        try:
+            path.simplify(fix_winding=True)
+        except Exception:
+            pass
     cmds = []
     names = {pathops.PathVerb.MOVE: "M", pathops.PathVerb.LINE: "L", pathops.PathVerb.QUAD: "Q", pathops.PathVerb.CUBIC: "C", pathops.PathVerb.CLOSE: "Z"}
     for verb, pts in path:
